@@ -48,14 +48,22 @@ class Ctx:
         refs = objref.objdump_many([h for h, _ in acc], chk.work)
         rend = run_impl('impl_x86dis.py', ['r ' + h for h, _ in acc])
         self.base = []      # dict(b, intel, att, ref_text, name)
+        self.disagree = []
         nskip = 0
         for k, ((h, i), ref, rt) in enumerate(zip(acc, refs, rend)):
             if ref is None or ' || ' not in rt: continue
             it, at = rt.split(' || ')
             if it.startswith('CRASH') or at.startswith('CRASH'): continue     # rendering failures: C10
             r = cmp_text(h, k * objref.SLOT, len(h) // 2, it, ref)
-            if r is not None: nskip += 1; continue                            # decoder/reference disagreement or superfluous prefix: C01
-            self.base.append(dict(b=h, intel=it, att=at, ref=ref[1], name=i.split('|')[2], addr=k * objref.SLOT))
+            pfx = i.split('|')[1].split(',')
+            if '240' in pfx and '[' not in ref[1]: continue                    # lock without a memory destination: #UD, not an instruction
+            if i.split('|')[2] == 'lea' and re.search(r'\b[c-gs]s:', ref[1]): continue    # segment override on lea: meaning-free prefix
+            if r == 'skip': nskip += 1; continue                              # superfluous prefix / not an instruction for the reference
+            if r is not None:                                                 # decoder/reference disagreement (C01 decides it): kept apart, used only where the
+                nskip += 1                                                    # rendering itself is handed to GNU as (C09)
+                self.disagree.append(dict(b=h, intel=it, att=at, ref=ref[1], name=i.split('|')[2], addr=k * objref.SLOT, admode=i.split('|')[4], prefix=i.split('|')[1]))
+                continue
+            self.base.append(dict(b=h, intel=it, att=at, ref=ref[1], name=i.split('|')[2], addr=k * objref.SLOT, admode=i.split('|')[4], prefix=i.split('|')[1]))
         chk.log('base strings %d, decodable %d, usable (decoder and objdump agree) %d' % (len(strings), len(acc), len(self.base)))
         self._canon = None
     # ---- GNU as on objdump's own text: canonical encodings
@@ -84,11 +92,11 @@ class Ctx:
 
 def has_branch_or_abs(x):
     """instructions whose text a compiler would not emit as such: raw relative displacements, absolute numeric memory operands, far pointers"""
-    it = x['intel']
-    mn = mnem_class(it)
-    if re.match(r'^(j[a-z]+|call|loop[a-z]*|jecxz|jcxz|xbegin)$', mn) and not re.search(r'[\[\]]|\b(e?[abcd]x|e?[sd]i|e?[sb]p)\b', it.split(None, 1)[1] if ' ' in it else ''): return True
-    if re.search(r'\[\s*(0x[0-9a-fA-F]+|\d+)\s*\]', it) or re.search(r'(?<![\w\]])\[?(0x[0-9a-fA-F]+|\d+)\]?$', '') : return True
-    if re.search(r':\s*(0x[0-9a-fA-F]+|\d+)\s*$', it): return True
+    it = x['intel']; ref = x['ref']
+    mn = mnem_class(ref)
+    if re.match(r'^(j[a-z]+|call|loop[a-z]*|jecxz|jcxz|xbegin)$', mn) and '[' not in ref and not re.search(r'\b(e?[abcd]x|e?[sd]i|e?[sb]p)\b', ref.split(None, 1)[1] if ' ' in ref else ''): return True
+    if re.search(r'\b[c-gs]s:0x[0-9a-f]+', ref) or re.search(r'\[(eiz[^\]]*|0x[0-9a-f]+)\]', ref): return True
+    if re.search(r'0x[0-9a-f]+:0x[0-9a-f]+', ref): return True
     return False
 
 R16 = r'\b(bx|bp|si|di)\b'
@@ -96,8 +104,7 @@ def features(x):
     """coarse, root-cause oriented features of a base instruction (from its Intel rendering)"""
     it = x['intel']; f = []
     ops = it.split(None, 1)[1] if ' ' in it.strip() else ''
-    for br in re.findall(r'\[([^\]]*)\]', ops):
-        if re.search(R16, br): f.append('addr16'); break
+    if x.get('admode') == 'u16' or '103' in x.get('prefix', '').split(','): f.append('addr16')
     if re.search(r'\b[c-gs]s:', ops): f.append('segovr')
     if re.search(r'(^|[ ,])([c-gs]s)($|[ ,])', ops): f.append('sreg')
     if re.search(r'\bcr\d\b', ops): f.append('creg')
@@ -110,7 +117,10 @@ def features(x):
     if x['b'][:2] in ('66',) or x['b'][2:4] == '66': f.append('o16')
     return '+'.join(f) or 'plain'
 
-def klass(kind, x): return '%s:%s:%s' % (kind, x['name'], features(x))
+def klass(kind, x):
+    f = features(x)
+    if 'addr16' in f.split('+'): return '%s:*:addr16' % kind      # one root cause: 16-bit addressing is not supported by the text layer
+    return '%s:%s:%s' % (kind, x['name'], f)
 
 def report(chk, bad, pid_prefix=''):
     """bad: key -> list of (case, detail).  Known classes are reported as such; every other class is a violation."""
